@@ -214,6 +214,47 @@ def run(ctx, report):
             report.analysed.setdefault('ref_mnemonics_not_reached', []).append(mn)
     report.analysed['effects_ref_mnemonics'] = len(eff)
 
+    # ------------------------------------------------------------ D4 far-pointer loads: selector after the offset
+    R4 = report.rule('C08.D4', 'lds/les/lss/lfs/lgs read the selector at operand-size/8 bytes after the offset', floor=3)
+    SEG = {'lds': 'ds', 'les': 'es', 'lss': 'ss', 'lfs': 'fs', 'lgs': 'gs'}
+    n_far = 0
+    for inst in L.lift_all():
+        if inst.func is None or inst.unknown or inst.name not in SEG:
+            continue
+        args = inst.args or []
+        if len(args) != 2 or args[1].kind != 'Mem':
+            continue
+        for dec, tmpl in inst.results:
+            if isinstance(tmpl, LiftError) or not isinstance(tmpl, list):
+                continue
+            if inst.func.name in ('MMXnoflags',):
+                continue
+            n_far += 1
+            iid = inst.key()
+            w = _width(args[0])
+            sel = [a for a in tmpl if a.kind == 'Aff' and a.dst.kind == 'Id' and a.dst.name == SEG[inst.name]]
+            off = [a for a in tmpl if a.kind == 'Aff' and a.dst.key() == args[0].key()]
+            problems = []
+            if not off or off[0].src.kind != 'Mem' or off[0].src.arg.key() != args[1].arg.key() or _width(off[0].src) != w:
+                problems.append('the offset is not loaded from the operand address with the operand size')
+            if not sel or sel[0].src.kind != 'Mem' or _width(sel[0].src) != 16:
+                problems.append('no 16-bit selector load into %s' % SEG[inst.name])
+            else:
+                a = sel[0].src.arg
+                k = None
+                if a.kind == 'Op' and a.op == '+' and len(a.args) == 2 and a.args[0].key() == args[1].arg.key() and a.args[1].kind == 'Int':
+                    k = a.args[1].mod.val
+                if k is None:
+                    problems.append('selector address is not <operand address> + constant')
+                elif w and k != w // 8:
+                    problems.append('selector read at offset %s, the %d-bit offset occupies %d bytes' % (k, w, w // 8))
+            if problems:
+                R4.violation(iid, 'far-pointer:%s:%s' % (inst.func.name, ';'.join(problems)[:90]), '%s (%s): %s' % (inst.name, inst.form, '; '.join(problems)),
+                             where(sem, inst.func.node), witness='%s eax, [ebx]: selector is at [ebx+4]' % inst.name)
+            else:
+                R4.ok(iid, sample='%s %s: offset @%d[addr], selector @16[addr+%d]' % (inst.name, inst.form, w, w // 8))
+    report.analysed['far_pointer_forms'] = n_far
+
 
 def _derived_cell(mems, m):
     """A cell whose address is computed from the operand's address (bit-string instructions address base + offset)."""
@@ -233,6 +274,7 @@ def _width(t):
 
 
 MUTANTS = [
+    ('lds-selector-offset', 'miasmx/arch/ia32_sem.py', "    e.append(ExprAff(ds, ExprMem(ExprOp('+', b.arg,\n                                        ExprInt_from(b.arg, a.get_size()//8)),", "    e.append(ExprAff(ds, ExprMem(ExprOp('+', b.arg,\n                                        ExprInt_from(b.arg, 2)),", 'C08.D4'),
     ('xmm7-fencepost', 'miasmx/arch/ia32_sem.py', "            if 0 <= n-x86_afs.reg_xmm_base < 8:\n                t = ia32_rexpr.reg_xmm", "            if 0 <= n-x86_afs.reg_xmm_base < 7:\n                t = ia32_rexpr.reg_xmm", 'C08.D3'),
     ('cmovb-zf', 'miasmx/arch/ia32_sem.py', "    e.append(ExprAff(a, ExprCond( cf , b, a)))", "    e.append(ExprAff(a, ExprCond( zf , b, a)))", 'C08.D1'),
     ('stos-noedi', 'miasmx/arch/ia32_sem.py', "def stos(info, a):\n    e = []\n    off = a.get_size()/8\n    e.append(ExprAff(a, eax[0:a.get_size()]))\n    e.append(ExprAff(a.arg, ExprCond(df,\n                                     ExprOp('-', a.arg, ExprInt_from(a.arg, off)),\n                                     ExprOp('+', a.arg, ExprInt_from(a.arg, off)))))\n",
